@@ -3,4 +3,4 @@ Require Extraction.
 Require Import ExtrOcamlBasic.
 From OFGA Require Import Store.Assertions Store.Models Store.Stores.
 Extraction Language OCaml.
-Extraction "c16_model.ml" t_strace t_outs_on t_on_store store_ok rel_viewer rel_editor Nat.add.
+Extraction "c16_model.ml" t_strace sql_ttrace t_outs_on t_on_store store_ok rel_viewer rel_editor Nat.add.
